@@ -285,7 +285,9 @@ def rot_specs(tier):
     return out
 
 
-BASE_ROT = [[30.0, 'deg'], [90.0, 'deg'], [-123.4, 'deg'], [725.0, 'deg'], [1.0, 'rad'], [0.5, 'hourangle']]
+# 90.4 / -0.2 / 179.55 deg: close to, but not, a quarter turn
+BASE_ROT = [[30.0, 'deg'], [90.0, 'deg'], [-123.4, 'deg'], [725.0, 'deg'], [1.0, 'rad'], [0.5, 'hourangle'], [90.4, 'deg'], [-0.2, 'deg'],
+            [179.55, 'deg']]
 
 
 def rot_angles(tier, seed):
@@ -322,7 +324,8 @@ def _regpoly_as_polygon(n, r, a, c):
 
 def tr_specs(tier):
     big = tier == 'thorough'
-    centres = [(0.5, -0.25), (3.125, -7.875)] + ([(0.0, 0.0), (-2.375, 0.5)] if big else [])
+    # (0.53125, -7.9375): edges 1/32 and 1/16 pixel away from pixel boundaries (exactly representable at every shift)
+    centres = [(0.5, -0.25), (3.125, -7.875), (0.53125, -7.9375)] + ([(0.0, 0.0), (-2.375, 0.5)] if big else [])
     degs = [0.0, 30.0, 90.0, 123.4] if big else [0.0, 30.0, 123.4]
     angles = [[d, 'deg', 'quantity'] for d in degs]
     sizes = [1.0, 2.5, 7.5]
